@@ -32,8 +32,32 @@ def memo_attrs(f, roots=('self', 'cls')):
     writes = attr_writes(f, roots)
     if f.cls is not None:
         writes |= {w.replace(f.cls.name + '.', 'cls.', 1) for w in attr_writes(f, (f.cls.name,))}
-    # locals that carry (part of) such an attribute: `stored = self._memo.get(key)`, `a, b = stored`, ...
+    # a container kept on the object through its __dict__ and used under a local name:
+    #   recent = self.__dict__.setdefault('_recent', {}) ... recent[key] = value
+    # is a write to self._recent
     derived = {}
+    for n in ast.walk(f.node):
+        if isinstance(n, ast.Assign) and len(n.targets) == 1 and isinstance(n.targets[0], ast.Name) and \
+                isinstance(n.value, ast.Call) and isinstance(n.value.func, ast.Attribute) and \
+                n.value.func.attr == 'setdefault' and n.value.args and isinstance(n.value.args[0], ast.Constant) and \
+                isinstance(n.value.args[0].value, str):
+            holder = n.value.func.value
+            own = (isinstance(holder, ast.Attribute) and holder.attr == '__dict__' and isinstance(holder.value, ast.Name) and
+                   holder.value.id in roots) or \
+                  (isinstance(holder, ast.Call) and isinstance(holder.func, ast.Name) and holder.func.id == 'vars' and
+                   len(holder.args) == 1 and isinstance(holder.args[0], ast.Name) and holder.args[0].id in roots)
+            if own:
+                local = n.targets[0].id
+                path = '%s.%s' % (holder.value.id if isinstance(holder, ast.Attribute) else holder.args[0].id, n.value.args[0].value)
+                filled = any(isinstance(x, ast.Subscript) and isinstance(x.ctx, ast.Store) and isinstance(x.value, ast.Name)
+                             and x.value.id == local for x in ast.walk(f.node)) or \
+                    any(isinstance(x, ast.Call) and isinstance(x.func, ast.Attribute) and isinstance(x.func.value, ast.Name)
+                        and x.func.value.id == local and x.func.attr in ('update', 'setdefault', 'append', 'add')
+                        for x in ast.walk(f.node))
+                if filled:
+                    writes = set(writes) | {path}
+                    derived.setdefault(local, set()).add(path)
+    # locals that carry (part of) such an attribute: `stored = self._memo.get(key)`, `a, b = stored`, ...
     changed = True
     while changed:
         changed = False
@@ -63,6 +87,11 @@ def memo_attrs(f, roots=('self', 'cls')):
         test = None
         if isinstance(n, (ast.If, ast.IfExp, ast.While)):
             test = n.test
+        if isinstance(n, ast.If) and not n.orelse and n.body and isinstance(n.body[-1], ast.Raise) and \
+                all(isinstance(st, ast.Raise) or (isinstance(st, ast.Expr) and isinstance(st.value, ast.Call))
+                    for st in n.body):
+            # `if <state is inconsistent>: [log]; raise` rejects the call: it reuses nothing
+            test = None
         if test is None:
             continue
         for x in ast.walk(test):
